@@ -20,6 +20,7 @@
 #include "base_node.h"
 #include "log.h"
 #include "scheme.h"
+#include "verif_hook.h"
 
 #include "glog/logging.h"
 
@@ -73,6 +74,7 @@ public:
     }
 
     [[nodiscard]] std::size_t get_empty_slot() const {
+        YAKUSHIMA_VERIF_PRE(k_load, o_perm, &body_);
         std::uint64_t per_body(body_.load(std::memory_order_acquire));
         std::size_t cnk = per_body & cnk_mask;
         if (cnk == 0) { return 0; }
@@ -90,10 +92,18 @@ public:
     }
 
     [[nodiscard]] std::uint64_t get_body() const {
+#ifdef YAKUSHIMA_VERIF
+        YAKUSHIMA_VERIF_PRE(k_load, o_perm, &body_);
+        std::uint64_t vp_ = body_.load(std::memory_order_acquire);
+        YAKUSHIMA_VERIF_POST(k_load, o_perm, &body_, vp_, 1);
+        return vp_;
+#else
         return body_.load(std::memory_order_acquire);
+#endif
     }
 
     [[nodiscard]] std::uint8_t get_cnk() const {
+        YAKUSHIMA_VERIF_PRE(k_load, o_perm, &body_);
         std::uint64_t per_body(body_.load(std::memory_order_acquire));
         return static_cast<uint8_t>(per_body & cnk_mask);
     }
@@ -111,7 +121,15 @@ public:
         return per & cnk_mask;
     }
 
+#ifdef YAKUSHIMA_VERIF
+    void init() {
+        YAKUSHIMA_VERIF_PRE(k_store, o_perm, &body_);
+        YAKUSHIMA_VERIF_POST(k_store, o_perm, &body_, 0ULL, 1);
+        body_.store(0, std::memory_order_release);
+    }
+#else
     void init() { body_.store(0, std::memory_order_release); }
+#endif
 
     /**
      * @brief atomically insert rank and increment key number.
@@ -168,6 +186,7 @@ public:
     void
     rearrange(const std::array<key_slice_type, key_slice_length>& key_slice,
               const std::array<key_length_type, key_slice_length>& key_length) {
+        YAKUSHIMA_VERIF_PRE(k_load, o_perm, &body_);
         std::uint64_t per_body(body_.load(std::memory_order_acquire));
         // get current number of keys
         auto cnk = static_cast<uint8_t>(per_body & cnk_mask);
@@ -194,10 +213,14 @@ public:
             new_body <<= pkey_bit_size;
         }
         new_body |= cnk;
+        YAKUSHIMA_VERIF_PRE(k_store, o_perm, &body_);
+        YAKUSHIMA_VERIF_POST(k_store, o_perm, &body_, new_body, 1);
         body_.store(new_body, std::memory_order_release);
     }
 
     void set_body(const std::uint64_t nb) {
+        YAKUSHIMA_VERIF_PRE(k_store, o_perm, &body_);
+        YAKUSHIMA_VERIF_POST(k_store, o_perm, &body_, nb, 1);
         body_.store(nb, std::memory_order_release);
     }
 
@@ -207,9 +230,12 @@ public:
             LOG(ERROR) << log_location_prefix << "unreachable path";
         }
 #endif
+        YAKUSHIMA_VERIF_PRE(k_load, o_perm, &body_);
         std::uint64_t body = body_.load(std::memory_order_acquire);
         body &= ~cnk_mask;
         body |= cnk;
+        YAKUSHIMA_VERIF_PRE(k_store, o_perm, &body_);
+        YAKUSHIMA_VERIF_POST(k_store, o_perm, &body_, body, 1);
         body_.store(body, std::memory_order_release);
         return status::OK;
     }
